@@ -15,6 +15,7 @@ import (
 )
 
 type Env struct {
+	parent      *Env
 	x           *Exec
 	st          *State
 	names       map[string]Val
@@ -25,6 +26,9 @@ type Env struct {
 	entryParams bool
 	err         string
 	inOld       bool
+	loopHead     *ssa.BasicBlock // loop whose clause is being evaluated (for entry(e))
+	entryCells   []Val           // inside entry(e): local cells as they were when the loop was entered
+	missingEvent bool // the last evaluation failed because a clause refers to an event that did not happen
 	eventFloor  int // events with a smaller sequence number are invisible (loop back-edge assertions)
 }
 
@@ -36,11 +40,17 @@ func (e *Env) fail(format string, a ...any) (Val, bool) {
 	if e.err == "" {
 		e.err = fmt.Sprintf(format, a...)
 	}
+	for p := e.parent; p != nil; p = p.parent {
+		if e.missingEvent {
+			p.missingEvent = true
+		}
+	}
 	return Val{}, false
 }
 
 func (e *Env) evalBool(ex ast.Expr) (Term, bool) {
 	e.err = ""
+	e.missingEvent = false
 	v, ok := e.eval(ex)
 	if !ok {
 		return tFalse, false
@@ -67,6 +77,7 @@ func (e *Env) evalInt(ex ast.Expr) (Term, bool) {
 
 func (e *Env) child() *Env {
 	c := *e
+	c.parent = e
 	c.names = make(map[string]Val, len(e.names)+2)
 	for k, v := range e.names {
 		c.names[k] = v
@@ -76,7 +87,19 @@ func (e *Env) child() *Env {
 
 func (e *Env) view() *HeapView { return e.cur }
 
-func (e *Env) load(p *Ptr, t types.Type) Val { return e.x.loadPtr(e.st, e.view(), p, t) }
+func (e *Env) load(p *Ptr, t types.Type) Val {
+	if e.entryCells != nil && p.Kind == PCell && p.Cell < len(e.entryCells) {
+		v := e.entryCells[p.Cell]
+		for _, i := range p.Path {
+			if v.K != KStruct || i >= len(v.Fs) {
+				return e.x.loadPtr(e.st, e.view(), p, t)
+			}
+			v = v.Fs[i]
+		}
+		return v
+	}
+	return e.x.loadPtr(e.st, e.view(), p, t)
+}
 
 func (e *Env) lookupIdent(name string) (Val, bool) {
 	if v, ok := e.names[name]; ok {
@@ -627,6 +650,39 @@ func (e *Env) evalCall(n *ast.CallExpr) (Val, bool) {
 				e.err = c.err
 			}
 			return v, ok
+		case "entry":
+			// entry(e): the value of e when the loop was entered from outside
+			if len(n.Args) != 1 {
+				return e.fail("entry needs one argument")
+			}
+			if e.loopHead == nil || e.frame == nil || e.frame.loopEntry[e.loopHead] == nil {
+				return e.fail("entry(...) is only meaningful in loop clauses")
+			}
+			snap := e.frame.loopEntry[e.loopHead]
+			c := e.child()
+			c.cur = snap.view
+			c.entryCells = snap.cells
+			v, ok := c.eval(n.Args[0])
+			if !ok {
+				e.err = c.err
+			}
+			return v, ok
+		case "samearray":
+			if len(n.Args) != 2 {
+				return e.fail("samearray needs two slices")
+			}
+			a, ok := e.eval(n.Args[0])
+			if !ok {
+				return a, false
+			}
+			b, ok := e.eval(n.Args[1])
+			if !ok {
+				return b, false
+			}
+			if a.K != KSlice || b.K != KSlice {
+				return e.fail("samearray on non-slices")
+			}
+			return scalar(tAnd(tEq(a.Fs[0].T, b.Fs[0].T), tNot(tEq(a.Fs[0].T, tZero))), boolT), true
 		case "unchanged":
 			if len(n.Args) != 1 {
 				return e.fail("unchanged needs one argument")
@@ -757,6 +813,20 @@ func (e *Env) evalCall(n *ast.CallExpr) (Val, bool) {
 				return scalar(app(sBool, "str.prefixof", b.T, a.T), boolT), true
 			}
 			return scalar(app(sBool, "str.contains", a.T, b.T), boolT), true
+		case "inside":
+			// inside(k): the path is currently inside closure $k of the function under verification
+			if len(n.Args) != 1 {
+				return e.fail("inside needs a closure suffix such as $1")
+			}
+			suffix := "$" + patText(n.Args[0])
+			in := false
+			root := e.st.frames[0].fn.String()
+			for _, f := range e.st.frames[1:] {
+				if f.fn.String() == root+suffix {
+					in = true
+				}
+			}
+			return scalar(boolLit(in), boolT), true
 		case "has":
 			// has(m, k): key k is present in map m
 			if len(n.Args) != 2 {
@@ -831,6 +901,7 @@ func (e *Env) evalCall(n *ast.CallExpr) (Val, bool) {
 				rest = rest[1:]
 			}
 			if len(evs) <= back {
+				e.missingEvent = true
 				return e.fail("%s: no such call of %s on this path", id.Name, patText(n.Args[0]))
 			}
 			ev := evs[len(evs)-1-back]
